@@ -140,23 +140,31 @@ func (p *c20) runSeq(x *res, adapter string, regs []int, reqs []c20Req, nativeOn
 	nc := nativeOf(cl)
 	native := interpreter.NewNativeInterpreter()
 	ran := map[int]int{}
-	for _, ri := range regs {
-		ri := ri
-		rg := c20PoolCache[ri]
-		switch rg.kind {
-		case "update":
-			native.AddUpdater(rg.table, rg.text, func(item map[string]*mtypes.Item, vals map[string]*mtypes.Item) {
-				ran[ri]++
-				s := fmt.Sprintf("cb%d", ri)
-				item["cb"] = &mtypes.Item{S: &s}
-			})
-		default:
-			et := map[string]interpreter.ExpressionType{"key": interpreter.ExpressionTypeKey, "filter": interpreter.ExpressionTypeFilter, "conditional": interpreter.ExpressionTypeConditional}[rg.kind]
-			native.AddMatcher(rg.table, et, rg.text, func(item map[string]*mtypes.Item, vals map[string]*mtypes.Item) bool {
-				ran[ri]++
-				return true
-			})
+	// installAfterCreate doubles as "register late": in that mode the (still empty) interpreter is
+	// installed and the tables are created BEFORE the callbacks are registered on it
+	registerLate := installAfterCreate && len(regs) > 0 && regs[0]%2 == 0
+	register := func() {
+		for _, ri := range regs {
+			ri := ri
+			rg := c20PoolCache[ri]
+			switch rg.kind {
+			case "update":
+				native.AddUpdater(rg.table, rg.text, func(item map[string]*mtypes.Item, vals map[string]*mtypes.Item) {
+					ran[ri]++
+					s := fmt.Sprintf("cb%d", ri)
+					item["cb"] = &mtypes.Item{S: &s}
+				})
+			default:
+				et := map[string]interpreter.ExpressionType{"key": interpreter.ExpressionTypeKey, "filter": interpreter.ExpressionTypeFilter, "conditional": interpreter.ExpressionTypeConditional}[rg.kind]
+				native.AddMatcher(rg.table, et, rg.text, func(item map[string]*mtypes.Item, vals map[string]*mtypes.Item) bool {
+					ran[ri]++
+					return true
+				})
+			}
 		}
+	}
+	if !registerLate {
+		register()
 	}
 	specs := []adapt.TableSpec{mon.SpecHashOnly("tba"), mon.SpecHashOnly("tbb")}
 	install := func() {
@@ -168,10 +176,18 @@ func (p *c20) runSeq(x *res, adapter string, regs []int, reqs []c20Req, nativeOn
 	if !installAfterCreate {
 		install()
 	}
-	for _, s := range specs {
-		cl.Do(createOp(s))
+	if !registerLate {
+		for _, s := range specs {
+			cl.Do(createOp(s))
+		}
 	}
-	if installAfterCreate {
+	if registerLate {
+		install()
+		for _, s := range specs {
+			cl.Do(createOp(s))
+		}
+		register()
+	} else if installAfterCreate {
 		install()
 	}
 	item := val.Item{"h": val.Str("k"), "a": val.Str("1"), "b": val.Str("2")}
@@ -267,7 +283,7 @@ func (p *c20) runSeq(x *res, adapter string, regs []int, reqs []c20Req, nativeOn
 			for _, ri := range regs {
 				regDesc = append(regDesc, desc(ri))
 			}
-			wit := map[string]interface{}{"adapter": adapter, "registrations": regDesc, "request": req, "native_on": nativeOn, "installed_after_create": installAfterCreate, "callbacks_ran": ranList, "outcome": got, "item_after": after.Item}
+			wit := map[string]interface{}{"adapter": adapter, "registrations": regDesc, "request": req, "native_on": nativeOn, "installed_after_create": installAfterCreate, "registered_after_install_and_create": registerLate, "callbacks_ran": ranList, "outcome": got, "item_after": after.Item}
 			if got.Class == adapt.ClsRuntime {
 				x.viol("runtime-panic", got.Site, fmt.Sprintf("[%s] request %v: panic at %s: %s", adapter, req, got.Site, got.Msg), wit)
 				return
@@ -296,7 +312,7 @@ func (p *c20) runSeq(x *res, adapter string, regs []int, reqs []c20Req, nativeOn
 				return
 			}
 			if must >= 0 && fired < 0 {
-				x.viol("registered-callback-not-fired", req.kind+fmt.Sprintf("/after-create=%v", installAfterCreate)+seqTag, fmt.Sprintf("[%s] request %s/%s %q did not run the callback registered for %s (ran %v)", adapter, req.table, req.kind, req.text, desc(must), ranList), wit)
+				x.viol("registered-callback-not-fired", req.kind+fmt.Sprintf("/after-create=%v/register-late=%v", installAfterCreate, registerLate)+seqTag, fmt.Sprintf("[%s] request %s/%s %q did not run the callback registered for %s (ran %v)", adapter, req.table, req.kind, req.text, desc(must), ranList), wit)
 				return
 			}
 			// outcome
